@@ -109,6 +109,7 @@ fn vrun(profile: &str, seed: u64, start: u64, count: u64, out: &str, verbose: bo
         tally.count("qpoints", run.qpoints.len() as u64);
         tally.count("polls", run.polls);
         tally.count("parked", u64::from(run.parked));
+        tally.count("gates_released_together_with_another", run.multi_releases);
         tally.interleavings.insert(run.sched_hash ^ vh::rng::fnv(&format!("{}", run.evs.len())));
         let before = tally.violations.len();
         oracles_run::check_all(&an, tally, idx);
